@@ -25,44 +25,55 @@ func (e *Engine) monitorByName(name string) *MonitorDecl {
 	return nil
 }
 
-// guardOf returns the monitor guarding struct field T.f, if any.
-func (e *Engine) guardOf(st types.Type, field int) *MonitorDecl {
+// guardsOf returns the monitors guarding struct field T.f. A monitor of another package may
+// list the field as pkgname.T.f: objects of that type are then owned by either monitor (the
+// syncer owns cluster.Node objects while they are pending, the routing table afterwards), and an
+// access needs one of them held.
+func (e *Engine) guardsOf(st types.Type, field int) []*MonitorDecl {
 	n, ok := types.Unalias(st).(*types.Named)
 	if !ok || n.Obj().Pkg() == nil {
 		return nil
 	}
 	key := n.Obj().Name() + "." + st.Underlying().(*types.Struct).Field(field).Name()
+	qkey := n.Obj().Pkg().Name() + "." + key
+	var ms []*MonitorDecl
 	for _, m := range e.CS.Monitors {
-		if m.PkgPath != n.Obj().Pkg().Path() {
-			continue
-		}
 		for _, g := range m.Guards {
-			if g == key {
-				return m
+			if (g == key && m.PkgPath == n.Obj().Pkg().Path()) || (g == qkey && m.PkgPath != n.Obj().Pkg().Path()) {
+				ms = append(ms, m)
 			}
 		}
 	}
-	return nil
+	return ms
 }
 
 func (fc *FnCtx) guardCheck(st *State, p *Ptr, write bool, in ssa.Instruction) {
 	if p == nil || p.Root != RField || fc.S.Quiet {
 		return
 	}
-	m := fc.E.guardOf(p.St, p.Field)
-	if m == nil {
+	ms := fc.E.guardsOf(p.St, p.Field)
+	if len(ms) == 0 {
 		return
 	}
 	// objects allocated by this very function are not shared yet
 	if fc.top.freshRefs[p.Ref.S] {
 		return
 	}
-	name := m.Type + "." + m.Field
-	h := fc.heapGet(st, heldVar(name))
-	cond := h
+	var alts []Term
+	var names []string
+	for _, m := range ms {
+		name := m.Type + "." + m.Field
+		names = append(names, name)
+		h := fc.heapGet(st, heldVar(name))
+		if write {
+			alts = append(alts, h)
+		} else {
+			alts = append(alts, Or(h, fc.heapGet(st, rheldVar(name))))
+		}
+	}
+	cond := Or(alts...)
 	kind := "write"
 	if !write {
-		cond = Or(h, fc.heapGet(st, rheldVar(name)))
 		kind = "read"
 	}
 	if cond.S == "true" {
@@ -75,7 +86,7 @@ func (fc *FnCtx) guardCheck(st *State, p *Ptr, write bool, in ssa.Instruction) {
 	}
 	fc.top.guardSeen[key] = true
 	fc.oblige(st, "guarded-by", fmt.Sprintf("%s.%s %s", types.Unalias(p.St).(*types.Named).Obj().Name(), fname, kind), siteOf(fc, in),
-		cond, fmt.Sprintf("%s of %s only with %s held", kind, fname, name))
+		cond, fmt.Sprintf("%s of %s only with %s held", kind, fname, strings.Join(names, " or ")))
 }
 
 // lockOrder: acquiring a monitor of level L requires that no monitor of level >= L is held.
